@@ -62,7 +62,12 @@ func (v *vigil) BeginVigil() {
 
 func (v *vigil) CeaseVigil() {
 	atomic.AddInt64(&v.vigils, -1)
+	// Broadcast while holding the cond's lock: a waiter in WaitForActiveVigilsClosed holds
+	// that lock from its HasActiveVigils() test until it is parked inside Wait(), so the
+	// wake-up can no longer fall between the test and the Wait and get lost.
+	v.cond.L.Lock()
 	v.cond.Broadcast()
+	v.cond.L.Unlock()
 }
 
 func (v *vigil) HasActiveVigils() bool {
